@@ -245,6 +245,220 @@ theorem wrapper_defaults_not_inverse :
     pyResidual nf [some (1 : ℤ)] [some 1] (some 1) none none = .ok [0] := by
   constructor <;> rfl
 
+/-- the wrappers are the kernels at the resolved arguments, whatever the series (any `isnan`) -/
+theorem wrapper_is_kernel (nan : α → Bool) (params : List (Option α)) (series : List (Option α))
+    (meanArg iniArg : Option (Option α)) (μ : Option α) :
+    pySim nan params series meanArg iniArg =
+      sim nan params (resolveMean (some 0) meanArg)
+        (resolveIni (resolveMean (some 0) meanArg) iniArg) series ∧
+    pyResidual nan params series μ meanArg iniArg =
+      residual nan params (resolveMean μ meanArg) (resolveIni (resolveMean μ meanArg) iniArg) series :=
+  ⟨rfl, rfl⟩
+
+/-- `armodel_sim` / `armodel_residual` accept exactly: order 1..10, no NaN coefficient, and the mean and
+initial value the call stands for (argument or default) are not NaN — for every series, empty included -/
+theorem wrapper_accepts_iff (nan : α → Bool) (params : List (Option α)) (series : List (Option α))
+    (meanArg iniArg : Option (Option α)) (μ : Option α) :
+    ((∃ ys, pySim nan params series meanArg iniArg = .ok ys) ↔
+      (1 ≤ params.length ∧ params.length ≤ 10 ∧ none ∉ params ∧
+        resolveMean (some 0) meanArg ≠ none ∧
+        resolveIni (resolveMean (some 0) meanArg) iniArg ≠ none)) ∧
+    ((∃ rs, pyResidual nan params series μ meanArg iniArg = .ok rs) ↔
+      (1 ≤ params.length ∧ params.length ≤ 10 ∧ none ∉ params ∧
+        resolveMean μ meanArg ≠ none ∧ resolveIni (resolveMean μ meanArg) iniArg ≠ none)) :=
+  ⟨(accepts_iff nan params _ _ series).1, (accepts_iff nan params _ _ series).2⟩
+
+/-- the error the wrappers raise, guard by guard (order first, then coefficients, mean, initial value) -/
+theorem wrapper_rejects (nan : α → Bool) (params : List (Option α)) (series : List (Option α))
+    (meanArg iniArg : Option (Option α)) (μ : Option α) :
+    ((params.length = 0 ∨ 10 < params.length) →
+      pySim nan params series meanArg iniArg = .error .badOrder ∧
+      pyResidual nan params series μ meanArg iniArg = .error .badOrder) ∧
+    (1 ≤ params.length → params.length ≤ 10 → none ∈ params →
+      pySim nan params series meanArg iniArg = .error .nanParam ∧
+      pyResidual nan params series μ meanArg iniArg = .error .nanParam) ∧
+    (1 ≤ params.length → params.length ≤ 10 → none ∉ params →
+      (resolveMean (some 0) meanArg = none → pySim nan params series meanArg iniArg = .error .nanMean) ∧
+      (resolveMean μ meanArg = none → pyResidual nan params series μ meanArg iniArg = .error .nanMean)) ∧
+    (1 ≤ params.length → params.length ≤ 10 → none ∉ params →
+      (resolveMean (some 0) meanArg ≠ none → resolveIni (resolveMean (some 0) meanArg) iniArg = none →
+        pySim nan params series meanArg iniArg = .error .nanIni) ∧
+      (resolveMean μ meanArg ≠ none → resolveIni (resolveMean μ meanArg) iniArg = none →
+        pyResidual nan params series μ meanArg iniArg = .error .nanIni)) := by
+  refine ⟨fun h => ⟨(rejects_bad_order nan params _ _ series h).1, (rejects_bad_order nan params _ _ series h).2⟩,
+    fun h1 h10 h => ⟨(rejects_nan_param nan params _ _ series h1 h10 h).1,
+      (rejects_nan_param nan params _ _ series h1 h10 h).2⟩, ?_, ?_⟩
+  · intro h1 h10 h
+    constructor
+    · intro hm
+      show sim nan params (resolveMean (some 0) meanArg) _ series = _
+      rw [hm]; exact (rejects_nan_mean nan params _ series h1 h10 h).1
+    · intro hm
+      show residual nan params (resolveMean μ meanArg) _ series = _
+      rw [hm]; exact (rejects_nan_mean nan params _ series h1 h10 h).2
+  · intro h1 h10 h
+    constructor
+    · intro hm hi
+      obtain ⟨m, hm'⟩ := Option.ne_none_iff_exists'.mp hm
+      show sim nan params (resolveMean (some 0) meanArg) (resolveIni (resolveMean (some 0) meanArg) iniArg) series = _
+      rw [hi, hm']; exact (rejects_nan_ini nan params m series h1 h10 h).1
+    · intro hm hi
+      obtain ⟨m, hm'⟩ := Option.ne_none_iff_exists'.mp hm
+      show residual nan params (resolveMean μ meanArg) (resolveIni (resolveMean μ meanArg) iniArg) series = _
+      rw [hi, hm']; exact (rejects_nan_ini nan params m series h1 h10 h).2
+
+/-- the recursion through `armodel_sim`, `sim_mean` / `sim_ini` each left at its default or passed:
+`m`, `ini` are the values the call stands for (`m = 0` by default, `ini = m` by default) -/
+theorem wrapper_sim_recursion (ps : List α) (m ini : α) (meanArg iniArg : Option (Option α))
+    (innov : List (Option α)) (h1 : 1 ≤ ps.length) (h10 : ps.length ≤ 10)
+    (hm : resolveMean (some 0) meanArg = some m) (hi : resolveIni (some m) iniArg = some ini) :
+    ∃ ys, pySim nf (ps.map some) innov meanArg iniArg = .ok ys ∧
+      ∃ hlen : ys.length = innov.length,
+      ∀ (t : Nat) (ht : t < ys.length),
+        ys[t] - m = (∑ k : Fin ps.length, ps[k.val] * (past ys ini t k.val - m))
+                      + zeroNaN (innov[t]'(hlen ▸ ht)) := by
+  have : pySim nf (ps.map some) innov meanArg iniArg = sim nf (ps.map some) (some m) (some ini) innov := by
+    show sim nf _ (resolveMean (some 0) meanArg) (resolveIni (resolveMean (some 0) meanArg) iniArg) _ = _
+    rw [hm, hi]
+  rw [this]
+  exact sim_recursion ps m ini innov h1 h10
+
+/-- NaN innovation = zero innovation through `armodel_sim` (any `isnan`, any defaults) -/
+theorem wrapper_nan_innovation_is_zero (nan : α → Bool) (params : List (Option α))
+    (innov : List (Option α)) (meanArg iniArg : Option (Option α)) :
+    pySim nan params (innov.map fun e => some (zeroNaN e)) meanArg iniArg =
+      pySim nan params innov meanArg iniArg :=
+  nan_innovation_is_zero nan params _ _ innov
+
+/-- missing inputs give zero residuals through `armodel_residual` (any defaults, any data mean) -/
+theorem wrapper_residual_zero_at_missing (params : List (Option α)) (xs : List (Option α))
+    (μ : Option α) (meanArg iniArg : Option (Option α)) (rs : List α)
+    (h : pyResidual nf params xs μ meanArg iniArg = .ok rs) (t : Nat) (ht : xs[t]? = some none) :
+    rs[t]? = some 0 :=
+  residual_zero_at_missing params _ _ xs rs h t ht
+
+/-! ### the lag buffer is the whole state: a run cut anywhere resumes from it (any `isnan`) -/
+
+/-- the simulation of `es1 ++ es2` is the simulation of `es1` followed by the simulation of `es2` started
+from the buffer `simBuf` left by `es1`; same for the buffer itself.  This is what ties `simBuf` (never
+returned by the code) to the outputs the code does return. -/
+theorem kernel_sim_resume (nan : α → Bool) (ps : Vector α p) (m : α) (buf : Vector α p)
+    (es1 es2 : List (Option α)) :
+    simRun nan ps m buf (es1 ++ es2) =
+      simRun nan ps m buf es1 ++ simRun nan ps m (simBuf nan ps buf es1) es2 ∧
+    simBuf nan ps buf (es1 ++ es2) = simBuf nan ps (simBuf nan ps buf es1) es2 :=
+  ⟨simRun_append nan ps m es1 es2 buf, simBuf_append nan ps es1 es2 buf⟩
+
+theorem kernel_residual_resume (nan : α → Bool) (ps : Vector α p) (m : α) (buf : Vector α p)
+    (xs1 xs2 : List (Option α)) :
+    resRun nan ps m buf (xs1 ++ xs2) =
+      resRun nan ps m buf xs1 ++ resRun nan ps m (resBuf nan ps m buf xs1) xs2 ∧
+    resBuf nan ps m buf (xs1 ++ xs2) = resBuf nan ps m (resBuf nan ps m buf xs1) xs2 :=
+  ⟨resRun_append nan ps m xs1 xs2 buf, resBuf_append nan ps m xs1 xs2 buf⟩
+
+/-! ### the default mean of `armodel_residual` (`numpy.nanmean`) and series without data -/
+
+section
+variable {F : Type} [Field F]
+
+/-- the data mean is undefined (NaN) exactly when no value is present: empty or all-missing series
+(any `isnan` for the "if" direction) -/
+theorem data_mean_undefined_iff (xs : List (Option F)) :
+    dataMean nf xs = none ↔ ∀ x ∈ xs, x = none := by
+  unfold dataMean
+  rw [← dataCount_eq_zero_iff]
+  by_cases h : dataCount xs = 0 <;> simp [h, nf]
+
+/-- `armodel_residual(params, y)` with the default mean on an empty or all-missing series is rejected
+(NaN mean) whatever `sim_ini`; an explicit mean makes the data mean irrelevant -/
+theorem wrapper_residual_default_mean_without_data (nan : F → Bool) (params : List (Option F))
+    (xs : List (Option F)) (iniArg : Option (Option F)) (m : Option F)
+    (hx : ∀ x ∈ xs, x = none) :
+    (1 ≤ params.length → params.length ≤ 10 → none ∉ params →
+      pyResidualD nan params xs none iniArg = .error .nanMean) ∧
+    (∃ e, pyResidualD nan params xs none iniArg = .error e) ∧
+    pyResidualD nan params xs (some m) iniArg = residual nan params m (resolveIni m iniArg) xs := by
+  have hμ : dataMean nan xs = none := by
+    unfold dataMean
+    rw [if_pos ((dataCount_eq_zero_iff xs).mpr hx)]
+  have hnan : 1 ≤ params.length → params.length ≤ 10 → none ∉ params →
+      pyResidualD nan params xs none iniArg = .error .nanMean := by
+    intro h1 h10 hp
+    exact ((wrapper_rejects nan params xs none iniArg (dataMean nan xs)).2.2.1 h1 h10 hp).2
+      (by simp [resolveMean, hμ])
+  refine ⟨hnan, ?_, rfl⟩
+  by_cases hb : params.length = 0 ∨ 10 < params.length
+  · exact ⟨_, ((wrapper_rejects nan params xs none iniArg (dataMean nan xs)).1 hb).2⟩
+  · by_cases hp : none ∈ params
+    · exact ⟨_, ((wrapper_rejects nan params xs none iniArg (dataMean nan xs)).2.1
+        (by omega) (by omega) hp).2⟩
+    · exact ⟨_, hnan (by omega) (by omega) hp⟩
+
+/-- with data present the default mean is defined, so (order and coefficients being fine) the call is accepted -/
+theorem wrapper_residual_default_mean_with_data (ps : List F) (xs : List (Option F))
+    (h1 : 1 ≤ ps.length) (h10 : ps.length ≤ 10) (hx : ∃ v, some v ∈ xs) :
+    ∃ rs, pyResidualD nf (ps.map some) xs none none = .ok rs := by
+  have hμ : dataMean nf xs ≠ none := by
+    intro h
+    obtain ⟨v, hv⟩ := hx
+    have := (data_mean_undefined_iff xs).mp h _ hv
+    cases this
+  obtain ⟨μ, hμ'⟩ := Option.ne_none_iff_exists'.mp hμ
+  refine (wrapper_accepts_iff nf (ps.map some) xs none none (dataMean nf xs)).2.mpr ?_
+  simp [resolveMean, resolveIni, hμ', h1, h10]
+
+end
+
+/-! ### IEEE double: stated, not proved
+
+The `Float` instance of the very same model text is executed by the driver and compared bit for bit with the
+kernels; the statements below say what the property means at `Float` (rounding budgets, first order in
+`u = 2⁻⁵³`, the ones the harness oracle applies to the real code).  They are not theorems: Lean's `Float`
+is opaque to the kernel.  The exact-ring theorems above are the proved part. -/
+
+/-- largest absolute value of a list (0 for the empty list) -/
+def maxAbs (xs : List Float) : Float := xs.foldl (fun a x => if a < x.abs then x.abs else a) 0
+/-- sum of absolute values -/
+def sumAbs (xs : List Float) : Float := xs.foldl (fun a x => a + x.abs) 0
+/-- `8 (p+4) u (1+Σ|φ|) (max|y| + |m| + |ini| + max|e|)` -/
+def floatBudget (ps : List Float) (m ini : Float) (es ys : List Float) : Float :=
+  8 * (ps.length + 4).toFloat * 1.1102230246251565e-16 * (1 + sumAbs ps) *
+    (maxAbs ys + m.abs + ini.abs + maxAbs es)
+def allFinite (xs : List Float) : Prop := ∀ x ∈ xs, x.isFinite = true
+/-- `Σ_k φ[k]·(y[t-(k+1)] - m)` in the order of the list -/
+def floatLagSum (ps ys : List Float) (m ini : Float) (t : Nat) : Float :=
+  ps.zipIdx.foldl (fun acc φk => acc + φk.1 * (past ys ini t φk.2 - m)) 0
+
+/-- the recursion at `Float`, one step at a time, within the budget (finite inputs, no overflow) -/
+def float_recursion_statement : Prop :=
+  ∀ (ps : List Float) (m ini : Float) (es ys : List Float),
+    1 ≤ ps.length → ps.length ≤ 10 → allFinite ps → allFinite es → m.isFinite = true → ini.isFinite = true →
+    sim Float.isNaN (ps.map some) (some m) (some ini) (es.map some) = .ok ys → allFinite ys →
+    ∀ (t : Nat) (h1 : t < ys.length) (h2 : t < es.length),
+      ((ys[t] - m) - (floatLagSum ps ys m ini t + es[t])).abs ≤ floatBudget ps m ini es ys
+
+/-- `residual (sim e) = e` at `Float`, within the budget (the residual kernel is a finite filter of `y`:
+rounding errors are not amplified) -/
+def float_residual_sim_statement : Prop :=
+  ∀ (ps : List Float) (m ini : Float) (es ys rs : List Float),
+    allFinite ps → allFinite es → m.isFinite = true → ini.isFinite = true →
+    sim Float.isNaN (ps.map some) (some m) (some ini) (es.map some) = .ok ys → allFinite ys →
+    residual Float.isNaN (ps.map some) (some m) (some ini) (ys.map some) = .ok rs →
+    ∀ (t : Nat) (h1 : t < rs.length) (h2 : t < es.length),
+      (rs[t] - es[t]).abs ≤ floatBudget ps m ini es ys
+
+/-- `sim (residual y) = y` at `Float`: the one-step budget amplified by the absolute impulse response of
+the AR model (`sim` on `|φ|` with a unit impulse, summed), as the errors travel through the recursion -/
+def float_sim_residual_statement : Prop :=
+  ∀ (ps : List Float) (m ini : Float) (ys rs zs ψ : List Float),
+    allFinite ps → allFinite ys → m.isFinite = true → ini.isFinite = true →
+    residual Float.isNaN (ps.map some) (some m) (some ini) (ys.map some) = .ok rs → allFinite rs →
+    sim Float.isNaN (ps.map some) (some m) (some ini) (rs.map some) = .ok zs →
+    sim Float.isNaN (ps.map fun φ => some φ.abs) (some 0) (some 0)
+      ((List.range ys.length).map fun j => some (if j = 0 then 1 else 0)) = .ok ψ →
+    ∀ (t : Nat) (h1 : t < zs.length) (h2 : t < ys.length),
+      (zs[t] - ys[t]).abs ≤ (1 + sumAbs ψ) * floatBudget ps m ini rs ys
+
 /-! ### non-vacuity: the hypotheses are met by concrete non-trivial inputs, sample evaluations -/
 
 example : sim nf [some (2 : ℤ), some (-1)] (some 5) (some 10) [some 1, none, some 2, some (-1)]
@@ -261,5 +475,18 @@ example : past [11, 12, 15, (17 : ℤ)] 10 2 0 = 12 ∧ past [11, 12, 15, (17 : 
 /-- `hm` of `wrapper_residual_sim` is satisfiable both ways -/
 example : ((some (some (5 : ℤ)) : Option (Option ℤ)) ≠ none ∨ (none : Option ℤ) = some 0) := by simp
 example : ((none : Option (Option ℤ)) ≠ none ∨ (some (0 : ℤ)) = some 0) := by simp
+/-- hypotheses of `wrapper_sim_recursion`: defaults give `m = 0`, `ini = m`; explicit values are themselves -/
+example : resolveMean (some (0 : ℤ)) none = some 0 ∧ resolveIni (some (0 : ℤ)) none = some 0 := ⟨rfl, rfl⟩
+example : resolveMean (some (0 : ℤ)) (some (some 5)) = some 5 ∧ resolveIni (some (5 : ℤ)) (some (some 10)) = some 10 :=
+  ⟨rfl, rfl⟩
+example : resolveMean (some (0 : ℤ)) (some (some 5)) = some 5 ∧ resolveIni (some (5 : ℤ)) none = some 5 := ⟨rfl, rfl⟩
+/-- series without data: empty, or all missing -/
+example : ∀ x ∈ ([] : List (Option ℚ)), x = none := by simp
+example : ∀ x ∈ ([none, none] : List (Option ℚ)), x = none := by simp
+example : ∃ v, some v ∈ [none, some (3 : ℚ), none] := ⟨3, by simp⟩
+/-- resuming: a non-trivial cut -/
+example : simRun nf (toVec [(2 : ℤ), -1]) 5 (Vector.replicate 2 5) ([some 1, none] ++ [some 2, some (-1)])
+    = [11, 12] ++ simRun nf (toVec [(2 : ℤ), -1]) 5 (simBuf nf (toVec [(2 : ℤ), -1]) (Vector.replicate 2 5) [some 1, none])
+        [some 2, some (-1)] := by rfl
 
 end HydroVerif.C17
